@@ -85,7 +85,7 @@ SANCTIONED: Dict[Tuple[str, str], List[Tuple[str, str, str]]] = {
     ("responses", "FileResponse.__call__"): [("asgi", r"^\('const', \"'headers'\"\)", "header scan loop")],
     ("responses", "SendEventResponse.render_stream"): [("*", r"'(close|aclose|submit|push|__iter__|__next__)'", "relay thread (WSGI) vs relay task (ASGI); hand-off checked by C06"),
                                                        ("wsgi", r"^\('const', '0\.\d+'\)", "poll interval of the WSGI consumer's drain-until-done loop (a thread cannot be cancelled; C06/R6.3)"),
-                                                       ("*", r"^\('raise', '_L', \('finally', '(not \(?_L\)?|not _L\.cancel\(\))', '_L is not None'\)\)", "the relay's own exception is re-raised unless the relay was cancelled: WSGI takes cancel()'s result before its drain loop (a pool future that never started must not be waited for), ASGI tests it in place")],
+                                                       ("*", r"^\('raise', '_L', \('finally', 'not \(_L is None\)', 'not \((_L|_L\.cancel\(\))\)'\)\)", "the relay's own exception is re-raised unless the relay was cancelled: WSGI takes cancel()'s result before its drain loop (a pool future that never started must not be waited for), ASGI tests it in place")],
     ("responses", "SendEventResponse.render_stream.push"): [("*", r"'(close|aclose|__iter__|__next__)'", "iterator protocol vocabulary")],
     ("responses", "StreamResponse.render_stream"): [("asgi", r"'(close|aclose)'", "ASGI closes the async iterable itself; a WSGI server calls close() on the response iterable")],
     ("responses", "StreamingResponse.__call__"): [("asgi", r"'(close|send|wait_close)'", "disconnect watcher and generator driving are ASGI plumbing (C06)")],
@@ -182,6 +182,8 @@ def run(p: Program, rep: Report, tier: str) -> None:
                 used_a.add(tgt)
             elif ("wsgi", mod, q) in ONE_SIDED_OK:
                 rep.ok("R4.2", f"{mod}.{q}: WSGI only ({ONE_SIDED_OK[('wsgi', mod, q)]})")
+            elif _is_folded_helper(p, f):
+                rep.ok("R4.2", f"{mod}.{q}: private helper, its effects are compared inside its callers")
             else:
                 rep.violation("R4.2", construct(f, text="one-sided definition"), f.loc, f"{f.fq} has no ASGI sibling (a behaviour defined on one interface only)")
         for q, f in sorted(af.items()):
@@ -189,6 +191,8 @@ def run(p: Program, rep: Report, tier: str) -> None:
                 continue
             if ("asgi", mod, q) in ONE_SIDED_OK:
                 rep.ok("R4.2", f"{mod}.{q}: ASGI only ({ONE_SIDED_OK[('asgi', mod, q)]})")
+            elif _is_folded_helper(p, f):
+                rep.ok("R4.2", f"{mod}.{q}: private helper, its effects are compared inside its callers")
             else:
                 rep.violation("R4.2", construct(f, text="one-sided definition"), f.loc, f"{f.fq} has no WSGI sibling (a behaviour defined on one interface only)")
     mh = p.module("baize.multipart_helper")
@@ -215,7 +219,7 @@ def run(p: Program, rep: Report, tier: str) -> None:
             rep.ok("R4.2", f"{mod}.{f.qualname}: normalised ASTs equal (tier A)")
             continue
         n_b += 1
-        fw, fa = fingerprint(f, names), fingerprint(g, names)
+        fw, fa = _strip_gateway_guards(fingerprint(f, names)), _strip_gateway_guards(fingerprint(g, names))
         only_w = fw - fa
         only_a = fa - fw
         sanc = GATEWAY + SANCTIONED.get((mod, f.qualname), [])
@@ -330,6 +334,42 @@ def run(p: Program, rep: Report, tier: str) -> None:
     if n47 == 0:
         rep.undecide("R4.7", "no text-level use of PATH_INFO found in baize.wsgi")
     rep.require_instances("R4.7", 4)
+
+
+# guard atoms that are gateway plumbing: they may appear in the guard set of any effect on one side only
+GATEWAY_GUARD_ATOMS = [
+    (r"REQ\['type'\] == '(lifespan|http|websocket)'", "ASGI applications are also called for lifespan / websocket scopes and refuse or divert them first"),
+]
+
+
+def _strip_gateway_guards(fp: Counter) -> Counter:
+    out: Counter = Counter()
+    for it, n in fp.items():
+        if it and isinstance(it[-1], tuple) and it[0] in ("header", "req-store", "attr-store", "raise", "call"):
+            g = tuple(a for a in it[-1] if not any(re.search(rx, a) for rx, _ in GATEWAY_GUARD_ATOMS))
+            it = it[:-1] + (g,)
+        out[it] += n
+    return out
+
+
+def _is_folded_helper(p: Program, f: FuncInfo) -> bool:
+    """A private function / method (one leading underscore, undecorated) that is called from its own module: it has no
+    behaviour of its own, the fingerprints of its callers contain its effects."""
+    from ..sibling import is_private_helper
+
+    top = f
+    while top.parent is not None:
+        top = top.parent
+    if not is_private_helper(top):
+        return False
+    name = top.name
+    for g in f.module.all_funcs:
+        if g is top:
+            continue
+        for n in ast.walk(g.node):
+            if isinstance(n, ast.Call) and ((isinstance(n.func, ast.Name) and n.func.id == name) or (isinstance(n.func, ast.Attribute) and n.func.attr == name)):
+                return True
+    return False
 
 
 def _filter(items: Counter, side: str, sanc) -> List:
